@@ -315,3 +315,90 @@ func recycleOnce(t *rapid.T, c *hx.Case, nn int, recovers []bool, reloaded strin
 		}
 	}
 }
+
+// TestWholeListReload: two services with disjoint node sets, rules loaded and reloaded through the whole-list loader
+// (outlier.LoadRules) after the nodes have become known. Each service's cap is computed from its own known nodes only:
+// after every node of service A has failed, a request on A is handed at most floor(pct x |A's nodes|) nodes, all of them
+// A's, and the nodes known for a service are exactly those its own requests named. Passive recovery only, so that no retry
+// task outlives a case (see DESIGN, P20); runs in a process of its own like every test of this package.
+func TestWholeListReload(t *testing.T) {
+	hx.Check(t, hx.N{Quick: 1500, Thorough: 15000}, func(t *rapid.T, c *hx.Case) {
+		no := atomic.AddInt64(&caseNo, 1)
+		hx.Reset(hx.Epoch + uint64(rapid.IntRange(0, 999).Draw(t, "t0")))
+		for i := 0; i < 64; i++ {
+			chain.GetPooledContext()
+		}
+		svc := []string{fmt.Sprintf("wl-%d-a", no), fmt.Sprintf("wl-%d-b", no)}
+		pct := rapid.SampledFrom([]float64{0.1, 0.29, 1.0 / 3, 0.5, 0.57, 0.7, 0.9, 1}).Draw(t, "pct")
+		size := []int{rapid.IntRange(1, 8).Draw(t, "nodesA"), rapid.IntRange(1, 8).Draw(t, "nodesB")}
+		mk := func(i int, retry uint32) *outlier.Rule {
+			return &outlier.Rule{Rule: &cb.Rule{Id: svc[i], Resource: svc[i], Strategy: cb.ErrorCount, RetryTimeoutMs: retry, MinRequestAmount: 1, StatIntervalMs: 1000, Threshold: 1},
+				MaxEjectionPercent: pct, RecoveryIntervalMs: 4000, MaxRecoveryAttempts: 1, RecycleIntervalS: 0}
+		}
+		if _, err := outlier.LoadRules([]*outlier.Rule{mk(0, 1000), mk(1, 1000)}); err != nil {
+			t.Fatalf("LoadRules: %v", err)
+		}
+		addr := func(i, k int) string { return fmt.Sprintf("10.%d.0.%d:80", 1+i, k) }
+		call := func(i, k int, fail bool) (filter []string) {
+			e, blk := sentinel.Entry(svc[i], sentinel.WithSlotChain(chain))
+			if blk != nil {
+				t.Fatalf("outlier slot blocked the request: %v", blk)
+			}
+			filter = append(filter, e.Context().FilterNodes()...)
+			sentinel.TraceCallee(e, addr(i, k))
+			if fail {
+				e.Exit(base.WithError(errors.New("x")))
+			} else {
+				e.Exit()
+			}
+			return filter
+		}
+		for i := range svc { // every node becomes known through a successful request
+			for k := 0; k < size[i]; k++ {
+				call(i, k, false)
+			}
+		}
+		reloads := rapid.IntRange(0, 2).Draw(t, "wholeListReloads")
+		for r := 0; r < reloads; r++ { // a changed list: service B's retry timeout differs (and the order of the list)
+			l := []*outlier.Rule{mk(0, 1000), mk(1, uint32(2000+r))}
+			if rapid.Bool().Draw(t, "swapped") {
+				l[0], l[1] = l[1], l[0]
+			}
+			if _, err := outlier.LoadRules(l); err != nil {
+				t.Fatalf("LoadRules (reload): %v", err)
+			}
+		}
+		for i := range svc {
+			known := outlier.VerifNodeAddresses(svc[i])
+			sort.Strings(known)
+			var want []string
+			for k := 0; k < size[i]; k++ {
+				want = append(want, addr(i, k))
+			}
+			sort.Strings(want)
+			if fmt.Sprint(known) != fmt.Sprint(want) {
+				t.Fatalf("after %d whole-list reload(s) the nodes known for service %s are %v, its own requests named %v", reloads, svc[i], known, want)
+			}
+		}
+		hx.C.AddMs(5)
+		for k := 0; k < size[0]; k++ { // every node of A fails once: its breaker opens
+			call(0, k, true)
+		}
+		hx.C.AddMs(5)
+		filter := call(0, 0, true)
+		bound := floorNP(size[0], pct)
+		c.Op("pct=%v nodes A=%d B=%d whole-list reloads=%d: %d of A's nodes reported, allowed %d", pct, size[0], size[1], reloads, len(filter), bound)
+		if len(filter) > bound {
+			t.Fatalf("all %d nodes of service %s failed; %d nodes reported for filtering, allowed floor(%d x %v) = %d (the other service has %d nodes, %d whole-list reloads)", size[0], svc[0], len(filter), size[0], pct, bound, size[1], reloads)
+		}
+		for _, a := range filter {
+			if !strings.HasPrefix(a, "10.1.") {
+				t.Fatalf("node %s of another service reported for service %s", a, svc[0])
+			}
+		}
+		if reloads > 0 && bound < size[0] {
+			c.NonTrivial()
+			c.Class("whole-list-reload-after-nodes-became-known")
+		}
+	})
+}
